@@ -531,36 +531,41 @@ class AnnualFormula(Contract):
         nv = out[1]
         res = [("base-variable-untouched", not changed(a["__snap"])), ("new-object", nv is not w.v_tax)]
         data = nv.fields["formulas"].fields["__data__"]
-        f = data.items[("c", "2010-01-01")]
         period = a["__period"]
-        requests = []
-
-        def population(ctx2, name, p, options=None):
-            requests.append((name, p))
-            return Opaque(None, "requested-value")
-        pop = Opaque(None, "population", {"call": population})
-        called = []
-        # original formulas are opaque callables: record their calls
-        for k in list(w.v_tax.fields["formulas"].fields["__data__"].items):
-            orig = w.v_tax.fields["formulas"].fields["__data__"].items[k]
-            orig.attrs["call"] = (lambda ctx2, *args, _o=orig: called.append((_o, args)) or Opaque(None, "original-value"))
-            orig.attrs["getattr"] = (lambda ctx2, n: (Opaque(None, "code", {"fields": {"co_argcount": 3}}) if n == "__code__" else None))
-        r = I.call(ctx, f, [pop, period, Opaque(None, "parameters")], {})
         y, m, d = ymd(period.items[1])
-        if z3.is_true(z3.simplify(m == 1)) or a["annualization_period"] is not None:
-            res.append(("original-formula-used", len(called) == 1 and called[0][0] is w.f_new and not requests and
-                        isinstance(r, Opaque) and r.tag == "original-value"))
-            if called:
-                res.append(("original-formula-gets-the-same-period", called[0][1][1] is period))
-        else:
-            ok = len(requests) == 1 and not called and isinstance(r, Opaque) and r.tag == "requested-value"
-            res.append(("january-value-requested", ok))
-            if ok:
-                nm, p = requests[0]
-                pu, ps, pn = period_parts(p)
-                py, pm, pd = ymd(ps)
-                res.append(("request-is-the-variable-at-january-of-that-year",
-                            z3.And(z3.BoolVal(nm == "tax" and pu == "month"), zi(pn) == 1, py == y, pm == 1, pd == 1)))
+        # every dated formula has its own wrapper, around that formula
+        for key, original, tag in (("2010-01-01", w.f_new, "latest-formula"), ("2000-01-01", w.f_old, "earlier-formula")):
+            f = data.items.get(("c", key))
+            if f is None:
+                res.append((f"{tag}.wrapped", False))
+                continue
+            requests = []
+
+            def population(ctx2, name, p, options=None, requests=requests):
+                requests.append((name, p))
+                return Opaque(None, "requested-value")
+            pop = Opaque(None, "population", {"call": population})
+            called = []
+            # original formulas are opaque callables: record their calls
+            for k in list(w.v_tax.fields["formulas"].fields["__data__"].items):
+                orig = w.v_tax.fields["formulas"].fields["__data__"].items[k]
+                orig.attrs["call"] = (lambda ctx2, *args, _o=orig, called=called: called.append((_o, args)) or Opaque(None, "original-value"))
+                orig.attrs["getattr"] = (lambda ctx2, n: (Opaque(None, "code", {"fields": {"co_argcount": 3}}) if n == "__code__" else None))
+            r = I.call(ctx, f, [pop, period, Opaque(None, "parameters")], {})
+            if z3.is_true(z3.simplify(m == 1)) or a["annualization_period"] is not None:
+                res.append((f"{tag}.original-formula-used", len(called) == 1 and called[0][0] is original and not requests and
+                            isinstance(r, Opaque) and r.tag == "original-value"))
+                if called:
+                    res.append((f"{tag}.original-formula-gets-the-same-period", called[0][1][1] is period))
+            else:
+                ok = len(requests) == 1 and not called and isinstance(r, Opaque) and r.tag == "requested-value"
+                res.append((f"{tag}.january-value-requested", ok))
+                if ok:
+                    nm, p = requests[0]
+                    pu, ps, pn = period_parts(p)
+                    py, pm, pd = ymd(ps)
+                    res.append((f"{tag}.request-is-the-variable-at-january-of-that-year",
+                                z3.And(z3.BoolVal(nm == "tax" and pu == "month"), zi(pn) == 1, py == y, pm == 1, pd == 1)))
         return res
 
 
